@@ -242,3 +242,27 @@ impl Check for HistCheck {
         out.count(&format!("executions[{}]", h.scn.id), st.executions as i64);
     }
 }
+
+/// C05 = admission matrix (history exploration) + races (T-mode)
+pub struct C05;
+
+impl Check for C05 {
+    fn info(&self, tier: Tier) -> CheckInfo {
+        let mut i = HistCheck { prop: "C05" }.info(tier);
+        i.rule += "; races: 2-3 client threads issue the same action (complete, submit, skip, remove, abort, error, back) on one open act of W1 and W2 as real OS threads, every non-preemptive schedule plus at most k preemptions at the engine's task-state / task-set / cache accesses";
+        i.bounds = json!({"history_length": 2, "deviations": tier.pick("0 (matrix)", "<=1 (matrix)"), "race_threads": tier.pick("2", "2-3"), "preemption_bound": tier.pick(1, 2)});
+        i
+    }
+    fn items(&self, tier: Tier) -> Vec<Value> {
+        let mut v = HistCheck { prop: "C05" }.items(tier);
+        v.extend(super::c05race::items(tier));
+        v
+    }
+    fn run_item(&self, tier: Tier, item: &Value, out: &mut ItemOut) {
+        if item.get("race").is_some() {
+            super::c05race::run_item(tier, item, out);
+        } else {
+            HistCheck { prop: "C05" }.run_item(tier, item, out);
+        }
+    }
+}
